@@ -65,26 +65,39 @@ Inductive outcome :=
 Definition set_member (s : scope) (n : string) (m : member) : scope :=
   mkScope (tracks s) (assign n m (members s)) (buffer s).
 
-Definition handle_function (s : scope) (f : fdef) : scope * outcome :=
-  if existsb is_property (fdecos f) then (set_member s (fname f) (MProp (fid f) None None), OProp)
-  else if existsb is_overload (fdecos f) then
-    if tracks s then
-      let old := match lookup (fname f) (buffer s) with Some l => l | None => [] end in
-      (mkScope (tracks s) (members s) (assign (fname f) (old ++ [fid f]) (buffer s)), OOverload)
-    else (s, ODropped)
-  else match base_property s (fname f) (fdecos f), lookup (fname f) (members s) with
-  | Some true, Some (MProp id _ d) => (set_member s (fname f) (MProp id (Some (fid f)) d), OSetter id)
-  | Some false, Some (MProp id st _) => (set_member s (fname f) (MProp id st (Some (fid f))), ODeleter id)
-  | _, _ =>
-      if tracks s then
-        match lookup (fname f) (buffer s) with
-        | Some (x :: l) =>
-            (mkScope (tracks s) (assign (fname f) (MFunc (fid f) (x :: l)) (members s)) (remove_key (fname f) (buffer s)),
-             OImpl (x :: l))
-        | _ => (set_member s (fname f) (MFunc (fid f) []), OImpl [])
-        end
-      else (set_member s (fname f) (MFunc (fid f) []), OImpl [])
+(* what each branch does *)
+Definition property_action (s : scope) (f : fdef) : scope * outcome :=
+  (set_member s (fname f) (MProp (fid f) None None), OProp).
+Definition overload_action (s : scope) (f : fdef) : scope * outcome :=
+  if tracks s then
+    let old := match lookup (fname f) (buffer s) with Some l => l | None => [] end in
+    (mkScope (tracks s) (members s) (assign (fname f) (old ++ [fid f]) (buffer s)), OOverload)
+  else (s, ODropped).
+Definition impl_action (s : scope) (f : fdef) : scope * outcome :=
+  if tracks s then
+    match lookup (fname f) (buffer s) with
+    | Some (x :: l) =>
+        (mkScope (tracks s) (assign (fname f) (MFunc (fid f) (x :: l)) (members s)) (remove_key (fname f) (buffer s)),
+         OImpl (x :: l))
+    | _ => (set_member s (fname f) (MFunc (fid f) []), OImpl [])
+    end
+  else (set_member s (fname f) (MFunc (fid f) []), OImpl []).
+
+(* the tests are tried in the order the source tries them (Gen/C02_tables.v: ladder) *)
+Fixpoint dispatch (l : list branch) (s : scope) (f : fdef) : scope * outcome :=
+  match l with
+  | [] => impl_action s f
+  | BProperty :: r => if existsb is_property (fdecos f) then property_action s f else dispatch r s f
+  | BOverload :: r => if existsb is_overload (fdecos f) then overload_action s f else dispatch r s f
+  | BAccessor :: r =>
+      match base_property s (fname f) (fdecos f), lookup (fname f) (members s) with
+      | Some true, Some (MProp id _ d) => (set_member s (fname f) (MProp id (Some (fid f)) d), OSetter id)
+      | Some false, Some (MProp id st _) => (set_member s (fname f) (MProp id st (Some (fid f))), ODeleter id)
+      | _, _ => dispatch r s f
+      end
   end.
+
+Definition handle_function (s : scope) (f : fdef) : scope * outcome := dispatch ladder s f.
 
 Definition handle_item (s : scope) (it : item) : scope * outcome :=
   match it with
@@ -121,6 +134,7 @@ Definition reg (n : string) (c : cstate) : list Z := match lookup n (registry c)
 Definition apply_deco (c : cstate) (n : string) (d : deco) (o : cobj) : result (cobj * cstate) :=
   match d, o with
   | DOther, _ => Ok (o, c)
+  | DForeign, _ => Err "unsupported"
   | DOverload, CFunc i => Ok (CDummy, mkC (ns c) (assign n (reg n c ++ [i]) (registry c)))
   | DProperty, CFunc i => Ok (CProp i None None, c)
   | DSetter b, CFunc i =>
@@ -152,13 +166,34 @@ Fixpoint apply_decos (c : cstate) (n : string) (ds_rev : list deco) (o : cobj) :
               end
   end.
 
+(* decorator expressions are evaluated top-down before the function object exists: `n.setter` needs n bound to
+   a property right now; a foreign accessor is outside the modelled shapes *)
+Definition is_foreign (d : deco) := match d with DForeign => true | _ => false end.
+Fixpoint eval_decos (c : cstate) (ds : list deco) : option string :=
+  match ds with
+  | [] => None
+  | DSetter b :: r | DDeleter b :: r =>
+      match lookup b (ns c) with
+      | Some (CProp _ _ _) => eval_decos c r
+      | Some _ => Some "AttributeError"
+      | None => Some "NameError"
+      end
+  | _ :: r => eval_decos c r
+  end.
+
 Definition cpy_item (c : cstate) (it : item) : result cstate :=
   match it with
   | IBind id n => Ok (mkC (assign n (COtherObj id) (ns c)) (registry c))
-  | IDef f => match apply_decos c (fname f) (rev (fdecos f)) (CFunc (fid f)) with
-              | Ok (o, c') => Ok (mkC (assign (fname f) o (ns c')) (registry c'))
-              | Err e => Err e
-              end
+  | IDef f =>
+      if existsb is_foreign (fdecos f) then Err "unsupported" else
+      match eval_decos c (fdecos f) with
+      | Some e => Err e
+      | None =>
+          match apply_decos c (fname f) (rev (fdecos f)) (CFunc (fid f)) with
+          | Ok (o, c') => Ok (mkC (assign (fname f) o (ns c')) (registry c'))
+          | Err e => Err e
+          end
+      end
   end.
 
 Fixpoint cpy_exec (its : list item) (c : cstate) : result cstate :=
@@ -298,9 +333,12 @@ Definition enc_cstate (r : result cstate) : sexp :=
 
 Definition run_scope (s : sexp) : sexp :=
   match s with
-  | SList [SStr "items"; t; its] =>
-      match as_bool t, as_list_of dec_item its with
-      | Some t', Some its' => let s0 := mkScope t' [] [] in enc_scope (visit_items its' s0) (visit_log its' s0)
+  | SList [SStr "items"; SStr k; its] =>
+      let kind := if String.eqb k "module" then Some KModule else if String.eqb k "class" then Some KClass
+                  else if String.eqb k "function" then Some KFunction else None in
+      match kind, as_list_of dec_item its with
+      | Some k', Some its' =>
+          let s0 := mkScope (existsb (skind_eqb k') tracking_kinds) [] [] in enc_scope (visit_items its' s0) (visit_log its' s0)
       | _, _ => bad_input
       end
   | SList [SStr "cpy"; its] =>
